@@ -177,7 +177,8 @@ class Tracer:
         def c(k):
             b = t.bit()
             t.log.append(("c", k, b))
-            return b
+            # conditions are truth-tested, not compared with True / False: the value is some truthy / falsy object
+            return (True, 1, [0], "x", (None,))[k % 5] if b else (False, 0, [], "", None)[k % 5]
 
         def v(k):
             t.log.append(("v", k))
